@@ -149,6 +149,45 @@ def check(ctx, rep):
     fm = F.FormatterModel(ctx, rep)
     if fm.ok:
         K.rule_quiet_send(fm, rep, 'W3')
+        K.rule_handler_config(fm, rep, 'W3c')
+
+
+def rule_macro_values(ctx, rep, rid='W1v'):
+    """C02 through the macros: each statsd_* macro hands its value expression to the tagged client method *as it is* -
+    same type instantiation, no cast or conversion in between (a `$val as f64` would round large integers)."""
+    cad = ctx.cad
+    pairs = sorted(set((b.impl_trait.rsplit('::', 1)[-1], b.impl_self) for b in value_impls(cad)
+                       if b.impl_trait.rsplit('::', 1)[-1] in MACROS and b.impl_self in RUST_TY))
+    rep.floor(rid, '(macro, value type) pairs', len(pairs), 22)
+    lib, names = gen(pairs, (0,))
+    try:
+        wc = extract_witness(ctx, 'witness_macros', lib)
+    except Exception as e:
+        rep.bad(rid, 'witness-compiles', 'cadence-macros/src/macros.rs', 'a macro no longer accepts a value type its client method accepts: %s' % str(e)[-400:])
+        return
+    for fn, tr, ty, n in names:
+        b = wc.bodies.get('witness_macros::' + fn)
+        if b is None:
+            rep.anchor_lost(rid, fn)
+            continue
+        rep.analysed(b)
+        mac, trait, meth = MACROS[tr]
+        T = Terms(b)
+        want = '<cadence::client::StatsdClient as %s>::%s' % (trait, meth)
+        calls = [(bi, t_) for bi, t_ in b.calls() if not b.blocks[bi]['cleanup'] and strip_generics(t_.get('callee_full', '')) == want]
+        vals = [bi for bi, t_ in b.calls() if not b.blocks[bi]['cleanup'] and strip_generics(t_.get('callee_full', '')) == 'witness_macros::mk_val_' + ident(ty)]
+        rep.sites()
+        ok = len(calls) == 1 and len(vals) == 1
+        why = 'the expansion calls %s %d time(s)' % (want, len(calls))
+        if ok:
+            bi, t_ = calls[0]
+            ct = norm(T.call_term(bi))
+            okt = any(a.replace(' ', '') == ty.replace(' ', '') for a in t_.get('callee_args', []))
+            okv = ct[2][2] == norm(T.call_term(vals[0]))
+            ok = okt and okv
+            why = ('the client method is instantiated for %s, the value supplied is a %s' % (t_.get('callee_args'), ty)) if not okt else \
+                'the value is not handed over as supplied: %s' % fmt(ct[2][2])[:100]
+        rep.ob(rid, '%s/%s/value-passed-unchanged' % (mac, ident(ty)), ok, b.where(), '%s!(key, v) calls %s(key, v) with v as supplied' % (mac, meth) if ok else why)
 
 
 def _is_unwrapped_global(mac, path):
